@@ -115,6 +115,11 @@ structure Env (S : Type) where
   /-- `self.cfg.is_recursive()` (cfg.py:38-56: a heuristic on the depth component of the
       non-terminals; handed over as data) -/
   recursive : Bool
+  /-- `false`: the code as it is — `_query_list_` answers `(False, bank[cost_index])` for an existing bank
+      entry, also when `merge_program` emptied it (finding C12-F6: the element is then taken for the end of a
+      finite grammar and its successors are lost); `true`: the code after the proposed fix C12-F6
+      (`return len(bank[cost_index]) == 0, bank[cost_index]`: an emptied entry is an allowed-empty index) -/
+  fixEmptied : Bool := false
 
 def ruleW (E : Env S) (nt : NT S Unit) (P : Sym) : Option Rat :=
   match AList.lookup nt E.W with
@@ -315,7 +320,7 @@ mutual
       else if ci ≥ (s.clOf nt).length then some (s, false, [])
       else
         match AList.lookup ci (s.bankOf nt) with
-        | some ps => some (s, false, ps)
+        | some ps => some (s, E.fixEmptied && ps.isEmpty, ps)
         | none =>
           match runQuery E n s nt ci with
           | none => none
